@@ -65,6 +65,9 @@ func evalAll(c Case) *ev.Violation {
 	step := 1
 	if w > 400 {
 		step = w / 200 // big tables: a sample of the write indices (first, last and every step-th)
+		if c.Repeat >= 300 {
+			step = w / 50 // the largest table: each render takes tens of milliseconds
+		}
 	}
 	for k := 0; k < w; k++ {
 		if k%step != 0 && k != w-1 && k != w-2 {
@@ -199,7 +202,18 @@ func TestCross(t *testing.T) {
 			}
 		}
 	}
-	ev.R().Sub(ev.SubRun{Name: "cross", Bound: "3 fixed tables x 8 renderers x 10 error values x {plain, rich writer}, every write index x 3 failure modes of each; plus one table of about 500 rows (tens of KiB of output) x 8 renderers x 2 error values x {plain, rich}, sampled write indices", Cases: faultPoints, Exhaustive: true})
+	// and once more about four times as large (past 32 and 64 KiB) under the four non-text renderers (the text renderers take seconds per render at that size), plain writer, one error value
+	for _, st := range []string{"csv", "html", "json", "markdown"} {
+		i++
+		if i%shards != shard {
+			continue
+		}
+		c := Case{Script: gen.Script{Ops: tables[0]}, Style: st, Repeat: 480}
+		if v := evalAll(c); v != nil {
+			t.Fatalf("VIOLATION %s (detail in the replay file)", ID)
+		}
+	}
+	ev.R().Sub(ev.SubRun{Name: "cross", Bound: "3 fixed tables x 8 renderers x 10 error values x {plain, rich writer}, every write index x 3 failure modes of each; plus one table of about 500 rows (tens of KiB of output) x 8 renderers x 2 error values x {plain, rich}, sampled write indices; plus one of about 1800 rows (past 64 KiB) x {csv, html, json, markdown}", Cases: faultPoints, Exhaustive: true})
 }
 
 func TestProp(t *testing.T) {
